@@ -280,6 +280,11 @@ def ili_tsv(ili_file) -> bytes:
         head[0] = 'ILI'
     if extra:
         head.append('comment')
+    interior = ili_file.get('interior_columns')     # unknown columns BETWEEN the known ones
+    if interior:
+        # (the layout of the released CILI table: ili status superseded_by origin definition)
+        head = [head[0]] + ['superseded_by'] + head[1:-1] + ['origin'] + head[-1:] \
+            if len(head) > 2 else [head[0], 'superseded_by'] + head[1:]
     lines = ['\t'.join(head)]
     for r in ili_file['rows']:
         vals = []
@@ -292,6 +297,9 @@ def ili_tsv(ili_file) -> bytes:
                 vals.append(r.get('definition', ''))
         if extra:
             vals.append('note on %s' % r['ili'])
+        if interior:
+            vals = [vals[0]] + ['i77'] + vals[1:-1] + ['pwn-3.0'] + vals[-1:] \
+                if len(vals) > 2 else [vals[0], 'i77'] + vals[1:]
         lines.append('\t'.join(vals))
     nl = '\r\n' if ili_file.get('crlf') else '\n'
     return (nl.join(lines) + nl).encode('utf-8')
